@@ -641,6 +641,21 @@ func (x *Exec) lookupVar(fr *Frame, b *ssa.BasicBlock, upto int, name string, st
 			}
 		}
 	}
+	// a variable that lives in memory (an Alloc named after it) is read from its cell in the CURRENT state:
+	// an earlier value DebugRef of the same name only records what it held then
+	for blk := b; blk != nil; blk = blk.Idom() {
+		n := len(blk.Instrs)
+		if blk == b {
+			n = upto
+		}
+		for i := n - 1; i >= 0; i-- {
+			if a, ok := blk.Instrs[i].(*ssa.Alloc); ok && a.Comment == name {
+				if v, ok := fr.vals[a]; ok {
+					return x.loadPtr(st, v), true
+				}
+			}
+		}
+	}
 	for blk := b; blk != nil; blk = blk.Idom() {
 		n := len(blk.Instrs)
 		if blk == b {
